@@ -953,6 +953,7 @@ impl Driver {
         let field_eq_ok = |t: &Ty| -> bool {
             match t {
                 Ty::Int(Some(_)) | Ty::Bool => true,
+                Ty::Param(p) => self.tables.tyvars.get(p).map(|c| c == "Z").unwrap_or(false),
                 Ty::Adt(k) => match self.tables.adts.get(k) {
                     Some(Adt::Struct(s)) => s.eqb.is_some(),
                     Some(Adt::Enum(e)) => e.eqb.is_some(),
@@ -1091,8 +1092,17 @@ impl Driver {
                         }
                         if let (Pat::Ident(pi), Type::Path(tp)) = (&*pt.pat, t) {
                             if let Some(id) = tp.path.get_ident() {
-                                if gens.contains(&id.to_string()) && !inst_map.contains_key(&id.to_string()) {
-                                    ptys.insert(pi.ident.to_string(), id.to_string());
+                                if gens.contains(&id.to_string()) {
+                                    match inst_map.get(&id.to_string()) {
+                                        None => {
+                                            ptys.insert(pi.ident.to_string(), id.to_string());
+                                        }
+                                        // renamed to another type variable
+                                        Some(Ty::Param(q)) => {
+                                            ptys.insert(pi.ident.to_string(), q.clone());
+                                        }
+                                        Some(_) => {}
+                                    }
                                 }
                             }
                         }
@@ -1449,7 +1459,7 @@ impl Driver {
         let (ty, ex, l1, l2) = found[0];
         let mvars = self.mvars_of(quote::ToTokens::to_token_stream(ex), None, file);
         let ty = self.conv(ty, &BTreeSet::new(), st.as_deref(), None)?;
-        let mut tr = Tr { t: &self.tables, self_ty: st.clone(), ret_ty: ty.clone(), mut_self: false, counter: BTreeMap::new(), mut_methods: BTreeSet::new(), generic_tys: BTreeSet::new(), subst: BTreeMap::new(), fuel: false, needs_fuel: false, unwrap_retry: false, fuel_var: String::new(), fuel_names: BTreeSet::new(), mutarg_names: BTreeSet::new(), mut_params: vec![], ret_coq: String::new(), loops: vec![], fn_assigned: BTreeSet::new(), cur_file: file.to_string(), fn_coq: String::new(), loop_counter: 0, aux_defs: vec![], turbofish_types: None, inst_traits: BTreeMap::new(), self_coq: String::new(), mut_param_coq: vec![] };
+        let mut tr = Tr { t: &self.tables, self_ty: st.clone(), ret_ty: ty.clone(), mut_self: false, counter: BTreeMap::new(), mut_methods: BTreeSet::new(), generic_tys: BTreeSet::new(), subst: BTreeMap::new(), fuel: false, needs_fuel: false, unwrap_retry: false, fuel_var: String::new(), fuel_names: BTreeSet::new(), mutarg_names: BTreeSet::new(), mut_params: vec![], ret_coq: String::new(), loops: vec![], gen: None, fn_assigned: BTreeSet::new(), cur_file: file.to_string(), fn_coq: String::new(), loop_counter: 0, aux_defs: vec![], turbofish_types: None, inst_traits: BTreeMap::new(), self_coq: String::new(), mut_param_coq: vec![] };
         let mut cenv = Env::default();
         let cbinders = self.mvar_binders(&mvars, &mut tr, &mut cenv)?;
         let v = tr.pure(ex, &cenv, Some(&ty)).map_err(|e| format!("{} const `{}`: {}", file, spec, e))?;
@@ -1552,6 +1562,7 @@ impl Driver {
             mut_params: info.params.iter().zip(info.mut_params.iter()).filter(|(_, m)| **m).map(|((n, _), _)| n.clone()).collect(),
             ret_coq: ret_coq.clone(),
             loops: vec![],
+            gen: None,
             fn_assigned: BTreeSet::new(),
             cur_file: job.file.clone(),
             fn_coq: info.coq.clone(),
